@@ -35,7 +35,7 @@ class Obligation:
 
     def as_dict(self) -> Dict[str, Any]:
         d = {"rule": self.rule, "key": self.key, "ok": self.ok}
-        if self.msg:
+        if self.msg and not self.ok:
             d["what"] = self.msg
         if self.file:
             d["at"] = f"{self.file}:{self.line}"
@@ -204,7 +204,16 @@ def finish(ctx: Ctx, level_text: str, explanation: str) -> int:
     obligations = len(ctx.obs)
     discharged = sum(1 for o in ctx.obs if o.ok)
     distinct_nontrivial = len({o.fkey for o in ctx.obs if o.nontrivial})
-    samples = ctx.samples or [o.as_dict() for o in ctx.obs[:6]]
+    # one discharged (and, if any, one violated) instance per rule, written out
+    per_rule = []
+    for rid in ctx.rules:
+        inst = [o for o in ctx.obs if o.rule == rid]
+        if inst:
+            per_rule.append({"rule_text": ctx.rules[rid], **inst[0].as_dict()})
+        badi = [o for o in inst if not o.ok]
+        if badi:
+            per_rule.append(badi[0].as_dict())
+    samples = (ctx.samples + per_rule)[:24] or [o.as_dict() for o in ctx.obs[:6]]
     cov: Dict[str, Any] = {
         "explanation": explanation,
         "rules": [{"id": r, "text": t, "instances": ctx.count(r),
@@ -234,7 +243,8 @@ def finish(ctx: Ctx, level_text: str, explanation: str) -> int:
         "seed": ctx.seed,
         "level": "other",
         "coverage": cov,
-        "assumptions": ctx.assumptions,
+        "assumptions": ctx.assumptions or (["the source under /repo/cxxheaderparser is what is imported at run time (no monkey-patching, no generated code)",
+                                            "Python semantics of the constructs the rules interpret (dominance, exceptions, class attributes)"] + list(ctx.trusted)),
         "wall_s": round(time.time() - ctx.t0, 3),
         "violations": len(new),
     }
